@@ -2,13 +2,28 @@
 import argparse
 import importlib
 import os
+import signal
 import sys
 import traceback
 
 from . import common
 
 
+def normal_signals():
+    """the children the checks start must see the usual signal dispositions whatever launched the check (nohup leaves SIGHUP
+    ignored, a background job of a shell without job control leaves SIGINT / SIGQUIT ignored - and ignored signals are inherited
+    across exec): the real-child oracles rely on SIGINT interrupting a REPL and on SIGHUP being delivered unless asked otherwise"""
+    signal.signal(signal.SIGINT, signal.default_int_handler)
+    for s in (signal.SIGHUP, signal.SIGQUIT, signal.SIGTERM, signal.SIGCHLD):
+        signal.signal(s, signal.SIG_DFL)
+    try:
+        signal.pthread_sigmask(signal.SIG_SETMASK, set())
+    except (AttributeError, OSError):
+        pass
+
+
 def main():
+    normal_signals()
     ap = argparse.ArgumentParser()
     ap.add_argument('pid')
     ap.add_argument('--tier', default=os.environ.get('VERIF_TIER', 'quick'), choices=['quick', 'thorough'])
